@@ -18,7 +18,7 @@ def scratch(prefix: str = "verif-gen-") -> str:
     return tempfile.mkdtemp(prefix=prefix, dir=os.environ.get("VERIF_SCRATCH", "/tmp"))
 
 
-def run_plugin(plugin: str, out_dir: str, models: Optional[List[str]] = None, hashseed: Optional[str] = None, timeout: int = 900, test_dir: Optional[str] = None, repo: str = REPO) -> Tuple[int, str, float]:
+def run_plugin(plugin: str, out_dir: str, models: Optional[List[str]] = None, hashseed: Optional[str] = None, timeout: int = 900, test_dir: Optional[str] = None, repo: str = REPO, optimise: bool = False) -> Tuple[int, str, float]:
     """python -m generator --plugin <plugin> -> (exit status, combined output tail, seconds)."""
     td = test_dir or os.path.join(out_dir, "__tests__")
     os.makedirs(td, exist_ok=True)
@@ -28,6 +28,8 @@ def run_plugin(plugin: str, out_dir: str, models: Optional[List[str]] = None, ha
     env = dict(os.environ)
     env["PYTHONPATH"] = repo
     env["PYTHONDONTWRITEBYTECODE"] = "1"
+    if optimise:
+        env["PYTHONOPTIMIZE"] = "1"  # python -O: assert statements are compiled away
     if hashseed is not None:
         env["PYTHONHASHSEED"] = str(hashseed)
     else:
